@@ -128,8 +128,21 @@ func RunProbeOrder(order []string) (fails []ProbeFailure, err error) {
 
 // ProbeOrders generates n seeded permutations of the registered probes (plus the registration order and its
 // reverse) and runs each in a fresh process; violations are recorded under check "order".
+// firstEachOnce: the first ProbeOrders call of a run also tries every probe as the process's first action
+var firstEachOnce = true
+
 func ProbeOrders(n int) {
-	names := ProbeNames()
+	all := ProbeNames()
+	// probes named "soak:..." are long-running: they are left out of the permutations and each runs once, as the
+	// first action of its own fresh process, followed by every ordinary probe
+	var names, soaks []string
+	for _, s := range all {
+		if strings.HasPrefix(s, "soak:") {
+			soaks = append(soaks, s)
+		} else {
+			names = append(names, s)
+		}
+	}
 	if len(names) == 0 {
 		return
 	}
@@ -148,6 +161,17 @@ func ProbeOrders(n int) {
 			p[i], p[j] = p[j], p[i]
 		}
 		orders = append(orders, p)
+	}
+	// every probe gets to be the first thing the process does, once (first-use paths keyed on the first argument)
+	if firstEachOnce {
+		for i := range names {
+			o := append([]string{names[i]}, names[:i]...)
+			orders = append(orders, append(o, names[i+1:]...))
+		}
+		for _, sk := range soaks {
+			orders = append(orders, append([]string{sk}, names...))
+		}
+		firstEachOnce = false
 	}
 	for _, o := range orders {
 		Eval(int64(len(o)))
